@@ -15,6 +15,7 @@ Where the code at the pinned commit is defective the family has three members:
 import SteelVerif.C10.LemmasExpt
 import SteelVerif.C10.Arms
 import SteelVerif.C10.LemmasShapes
+import SteelVerif.C10.LemmasMixed
 namespace SteelVerif.C10
 
 /-! ## canonicalisation (`IntoSteelVal`) -/
@@ -795,6 +796,128 @@ example : expt Cfg.repaired (.fix 1) (.big 100000000000000000000) = .ok (.fix 1)
 example : expt Cfg.repaired (.fix 2) (.big 100000000000000000000) = .err .resource :=
   (expt_big_exponent_unrepresentable _ (by decide) (by decide) (by decide) _).1
 
+/-! ## mixed exact / inexact operations -/
+
+/-- **Only the exact operand is converted, once, by rounding its exact value.**  Whatever the IEEE operations are
+(`F` is arbitrary: the kernel has no floating point), for a double `x` (its 64 bits) and a canonical exact `y` of any
+representation and magnitude:
+  `x + y`, `y + x`  =  `F.add x (roundRat y)`             `x * y`, `y * x`  =  `F.mul x (roundRat y)`
+  `x − y`           =  `F.add x (roundRat (−y))`  (the negation is EXACT, then one rounding); `x − 0` is `x` itself
+  `y − x`           =  `F.add (F.neg x) (roundRat y)`
+the double's bits reach the IEEE operation unchanged (or through the sign flip), and every one of the four conversions of
+the code (`isize as f64`, `BigInt::to_f64`, `Ratio<i32>::to_f64`, `Ratio<BigInt>::to_f64`) is `roundRat ∘ denote`. -/
+theorem mixed_converts_exact_operand_only (F : IEEE) (x : Bits) {y : Num} (hy : Canonical y) :
+    toF64 y = roundRat (denote y) ∧
+    mixedAdd F (.flo x) (.exact y) = .flo (F.add x (roundRat (denote y))) ∧
+    mixedAdd F (.exact y) (.flo x) = .flo (F.add x (roundRat (denote y))) ∧
+    mixedMul F (.flo x) (.exact y) = .flo (F.mul x (roundRat (denote y))) ∧
+    mixedMul F (.exact y) (.flo x) = .flo (F.mul x (roundRat (denote y))) ∧
+    mixedSub F (.exact y) (.flo x) = .flo (F.add (F.neg x) (roundRat (denote y))) ∧
+    (y ≠ .fix 0 → mixedSub F (.flo x) (.exact y) = .flo (F.add x (roundRat (-(denote y))))) ∧
+    mixedSub F (.flo x) (.exact (.fix 0)) = .flo x := by
+  have h := toF64_eq_roundRat hy
+  refine ⟨h, ?_, ?_, ?_, ?_, ?_, ?_, by simp [mixedSub]⟩
+  · simp [mixedAdd, h]
+  · simp [mixedAdd, h]
+  · simp [mixedMul, h]
+  · simp [mixedMul, h]
+  · simp [mixedSub, h]
+  · intro hne
+    obtain ⟨v, hv, hden, hcan⟩ := negate_exact hy
+    have hv' := toF64_eq_roundRat hcan
+    rw [hden] at hv'
+    simp [mixedSub, hne, liftNum, hv, hv']
+
+/-- **Division (the code as it is, finding K10e): the exact operand is inverted exactly, rounded, and MULTIPLIED** —
+`x / y = F.mul x (roundRat (1/y))`, `y / x = F.mul (F.div 1.0 x) (roundRat y)`: two roundings where IEEE division
+has one.  `viaReciprocal = false` is the one-division form.  Division by an exact zero is the error either way. -/
+theorem mixed_division_shape (F : IEEE) (cfg : Cfg) (hc : cfg.recipChecked = true) (x : Bits) {y : Num}
+    (hy : Canonical y) :
+    (denote y ≠ 0 → mixedDiv F cfg true (.flo x) (.exact y) = .flo (F.mul x (roundRat (denote y)⁻¹))) ∧
+    mixedDiv F cfg true (.exact y) (.flo x) = .flo (F.mul (F.div F.one x) (roundRat (denote y))) ∧
+    (denote y ≠ 0 → mixedDiv F cfg false (.flo x) (.exact y) = .flo (F.div x (roundRat (denote y)))) ∧
+    mixedDiv F cfg false (.exact y) (.flo x) = .flo (F.div (roundRat (denote y)) x) ∧
+    mixedDiv F cfg true (.flo x) (.exact (.fix 0)) = .err .div0 ∧
+    mixedDiv F cfg false (.flo x) (.exact (.fix 0)) = .err .div0 := by
+  have h := toF64_eq_roundRat hy
+  refine ⟨?_, by simp [mixedDiv, h], ?_, by simp [mixedDiv, h], ?_, by simp [mixedDiv]⟩
+  · intro hne
+    obtain ⟨v, hv, hden, hcan⟩ := unary_div_exact cfg hy hne (Or.inl hc)
+    have hv' := toF64_eq_roundRat hcan
+    rw [hden] at hv'
+    simp [mixedDiv, liftNum, hv, hv']
+  · intro hne
+    have : y ≠ .fix 0 := by intro h0; apply hne; rw [h0]; simp [denote]
+    simp [mixedDiv, this, h]
+  · simp [mixedDiv, liftNum, recip, chk32, fitsI32]
+
+/-- **Comparison of an exact number with a finite double is the comparison of the two rationals** — for every canonical
+exact `x` (fixnum on either side of the 2^53 fast-path guard, bignum, ratio, big ratio) and every finite double `b`
+(normal, subnormal, ±0), `floatValue b` being the dyadic rational the 64 bits denote. -/
+theorem cmp_exact_with_float_correct {x : Num} (hx : Canonical x) {b : Bits} (hb : classify b = .finite) :
+    cmpExactWithFloat x b = some (cmpRat (denote x) (floatValue b)) := cmpExactWithFloat_finite hx hb
+
+/-- NaN is unordered, +∞ is above and −∞ below every exact number. -/
+theorem cmp_exact_with_float_special (x : Num) (b : Bits) :
+    (classify b = .nan → cmpExactWithFloat x b = none) ∧
+    (classify b = .posInf → cmpExactWithFloat x b = some .lt) ∧
+    (classify b = .negInf → cmpExactWithFloat x b = some .gt) := by
+  refine ⟨?_, ?_, ?_⟩ <;> intro h <;> simp [cmpExactWithFloat, h]
+
+/-- `< > <= >= =` between an exact number and a finite double decide the order of the exact values; with a NaN every
+one of them is false. -/
+theorem mixed_order_consistent {x : Num} (hx : Canonical x) {b : Bits} (hb : classify b = .finite) :
+    (ordHolds "lt" (cmpExactWithFloat x b) = true ↔ denote x < floatValue b) ∧
+    (ordHolds "eq" (cmpExactWithFloat x b) = true ↔ denote x = floatValue b) ∧
+    (ordHolds "le" (cmpExactWithFloat x b) = true ↔ (denote x < floatValue b ∨ denote x = floatValue b)) := by
+  rw [cmp_exact_with_float_correct hx hb]
+  unfold cmpRat
+  by_cases h1 : denote x < floatValue b
+  · have hne : denote x ≠ floatValue b := fun h => by rw [h] at h1; exact Rat.lt_irrefl h1
+    simp [h1, hne, ordHolds]
+  · by_cases h2 : denote x = floatValue b
+    · simp [h1, h2, ordHolds]
+    · simp [h1, h2, ordHolds]
+
+theorem mixed_nan_all_false (x : Num) {b : Bits} (hb : classify b = .nan) (op : String) :
+    ordHolds op (cmpExactWithFloat x b) = false := by
+  rw [(cmp_exact_with_float_special x b).1 hb]
+  unfold ordHolds; split <;> simp_all
+
+/-- **The tables of the Rust source** (translate/c10_ops.py): every mixed arm of `add_two`, `add_two_fallible`,
+`multiply_two` is `x ⊙ conv(y)` with the double on the left and the conversion the model names; division goes through
+the reciprocal (K10e open) ; `cmp_exact_with_float` answers `None / Less / Greater` for NaN / +∞ / −∞ and its fixnum
+fast path is guarded by `|x| ≤ 2^53` — the guard the model has (a wider guard makes the cast inexact: seeded changes
+C10-m1, C10-n1). -/
+theorem mixed_tables_as_modelled :
+    Gen.mixedConversions =
+      (["add_two", "add_two_fallible", "multiply_two"].flatMap fun f =>
+        [(f, "IntV", "as_f64"), (f, "BigNum", "to_f64"), (f, "Rational", "to_f64"), (f, "BigRational", "to_f64")]) ∧
+    Gen.cmpSpecial = [("nan", "None"), ("posInf", "Less"), ("negInf", "Greater")] ∧
+    Gen.cmpFastPathBits = 53 := by decide
+
+/-- Non-vacuity.  Bits: 2^53 = 0x4340000000000000, 2^63 = 0x43e0000000000000, 0.1 = 0x3fb999999999999a. -/
+example : cmpExactWithFloat (.fix 9007199254740993) 0x4340000000000000 = some .gt := by decide
+example : cmpExactWithFloat (.fix 9223372036854775807) 0x43e0000000000000 = some .lt := by decide
+example : cmpExactWithFloat (.big 9223372036854775808) 0x43e0000000000000 = some .eq := by decide
+set_option maxRecDepth 16384 in
+example : cmpExactWithFloat (.rat32 1 10) 0x3fb999999999999a = some .lt := by decide       -- 0.1 is above 1/10
+set_option maxRecDepth 16384 in
+example : cmpExactWithFloat (.fix 0) 0x8000000000000000 = some .eq := by decide            -- −0.0
+set_option maxRecDepth 16384 in
+example : cmpExactWithFloat (.fix 0) 1 = some .lt ∧ classify 1 = .finite := by decide      -- the least subnormal
+example : classify 0x7ff8000000000000 = .nan ∧ classify 0x7ff0000000000000 = .posInf
+    ∧ classify 0xfff0000000000000 = .negInf := by decide
+example : cmpExactWithFloat (.fix 9007199254740993) 0x4340000000000000
+    = some (cmpRat (denote (.fix 9007199254740993)) (floatValue 0x4340000000000000)) :=
+  cmp_exact_with_float_correct (by decide) (by decide)
+example : roundQ 9007199254740993 1 = 0x4340000000000000 ∧ roundQ 9007199254740995 1 = 0x4340000000000002 := by decide
+example : roundQ 1 3 = 0x3fd5555555555555 ∧ roundQ 1 10 = 0x3fb999999999999a ∧ roundQ (-1) 1 = 0xbff0000000000000 := by
+  decide
+example : roundQ 9223372036854775807 1 = 0x43e0000000000000 := by decide
+set_option maxRecDepth 16384 in
+example : roundQ (10 ^ 400) 1 = 0x7ff0000000000000 ∧ roundQ 1 (10 ^ 400) = 0 ∧ roundQ 1 (2 ^ 1074) = 1 := by decide
+
 /-! ## Clauses of the property not carried by a theorem -/
 
 /-
@@ -819,9 +942,16 @@ NOT carried by any theorem (covered only by the differential correspondence of c
    literal → value step is proved panic-free (`literal_conversion_total`), not the parser on arbitrary text; on texts that `number->string` does not produce (upper-case digits, `+`, leading zeros, radix
    prefixes, malformed texts) the model is compared with the real primitive on a generated family, no theorem.
    `BigInt::from_str_radix` accepts `_` between digits (`"1_0"` reads as 10): not in C12's parser model.
- * **Mixed exact/inexact operations follow IEEE double arithmetic on the converted operands; comparisons of
-   mixed operands are consistent with the exact values**: `Num` has no flonum; nothing is proved (tested
-   against CPython `float`/`Fraction`, bit patterns compared).  Signed zero, subnormals, infinities, NaN: likewise.
+ * **Mixed exact/inexact operations FOLLOW IEEE DOUBLE ARITHMETIC**: the kernel has no floating point.  Proved: which
+   operand is converted, that it is converted once by rounding its exact value, that the double's bits reach the operation
+   unchanged (`mixed_converts_exact_operand_only`, for an arbitrary `IEEE` structure), the shape of `/` (`mixed_division_shape`:
+   through the reciprocal, two roundings — finding K10e stays open), and the comparisons completely
+   (`cmp_exact_with_float_correct`, `_special`, `mixed_order_consistent`, `mixed_nan_all_false`).  NOT proved: that
+   `roundQ` is round-to-nearest-even (it is DEFINED as the algorithm; compared with the real conversions through
+   `exact->inexact` and with CPython), that `isize as f64` / `BigInt::to_f64` / `ratio_to_f64` are correctly rounded, and
+   anything about the results of `F.add`/`F.mul`/`F.div` (the driver runs the model with the machine's operations and the
+   bits are compared with the real engine: correspondence).  With the double on the LEFT of a comparison the result is the
+   swapped ordering (`mixedCmp`, by definition; no theorem states `(cmpRat a b).swap = cmpRat b a`).
    `expt` with an exact non-integer exponent, or a ratio base with a bignum exponent, returns a double
    (`expt_ratio_exponent_inexact` states only THAT; the bits are compared with C `pow`).
  * **The native-code (Cranelift) versions** of the operators: only `SUBIMMEDIATE`/`ADDIMMEDIATE`'s helpers are
